@@ -158,4 +158,16 @@ DEFAULT_LABELS = {
 
 DTYPE_CODES = {'int8': R.SSHORT, 'int16': R.SNORM, 'int32': R.SLONG, 'uint8': R.USHORT, 'uint16': R.UNORM,
                'uint32': R.ULONG, 'float32': R.FSINGL, 'float64': R.FDOUBL}
+_DT_CODES = {'f8': 'float64', 'f4': 'float32', 'i1': 'int8', 'i2': 'int16', 'i4': 'int32', 'u1': 'uint8', 'u2': 'uint16',
+             'u4': 'uint32'}
+
+
+def norm_dtype(name):
+    """'float32', '>f4', '<f4', '=f4' -> 'float32' (the byte order of a declared cast never changes the values)."""
+    if name is None:
+        return None
+    n = name.lstrip('<>=|')
+    return _DT_CODES.get(n, n)
+
+
 DTYPE_SIZES = {'int8': 1, 'int16': 2, 'int32': 4, 'uint8': 1, 'uint16': 2, 'uint32': 4, 'float32': 4, 'float64': 8}
